@@ -71,7 +71,8 @@ def run(tier, seed):
             sig = "replay:limits:facts-over-budget-without-growth"
         elif mi == 0 and P > 0 and "ok" in r["observed"]:
             sig = "replay:limits:max-iterations-zero"
-        elif len(r["observed"]) > 1 and "limit" in r["observed"][:-1] and any(o == "ok" for o in r["observed"][r["observed"].index("limit"):]):
+        elif len(r["observed"]) > 1 and "limit" in r["observed"][:-1] and any(
+                o == "ok" and c != "snapshot" for o, c in list(zip(r["observed"], sc["calls"]))[r["observed"].index("limit"):]):
             boundary = (mf in levels) or (mi == P and P > 0) or (mi in range(1, P + 1))
             sig = "replay:limits:retry-after-exhaustion-succeeds" + (":after-timeout" if sc["cost"] > 0 else (":at-boundary" if boundary else ""))
         else:
@@ -105,6 +106,8 @@ def run(tier, seed):
         scn = events[start]
         if ev["ev"] == "iter":
             reason = "pass-over-budget"
+        elif ev["ev"] == "return" and ev.get("name") == "snapshot":
+            reason = "snapshot-changes-budget-state"
         elif ev["ev"] == "return" and ev.get("outcome") == "ok":
             reason = "ok-after-exhaustion-or-over-budget"
         elif ev["ev"] == "return" and ev.get("outcome") == "limit":
@@ -130,7 +133,7 @@ def run(tier, seed):
                 t["items"], t["max_time_ms"], t["best_of_3_ms"], bound), {"kind": "limits-time", "row": t})
     return ctx.finish(
         rule="TLC explores the budget state machine (Limits.tla) over program shapes (level sizes per pass: rule-free, chains of 1..5 passes, one wide pass) x "
-             "max_facts in {0,3,5,7,9,12,1000} x max_iterations in {0,1,2,3,5,1000} x call sequences (run/authorize/query/query_all, up to 4 calls), "
+             "max_facts in {0,3,5,7,9,12,1000} x max_iterations in {0,1,2,3,5,1000} x call sequences (run/authorize/query/query_all and snapshot = save + continue on the restored authorizer, up to 4 calls), "
              "with invariants OkWithinBudget, ExhaustedIsFinal, NoStuck; the set of admissible outcome sequences of each scenario is exported. "
              "Replay: each scenario is realised by a concrete program and executed call by call on a real authorizer; the outcome sequence must be admissible and "
              "iterations()/fact_count() must be within budget on success. The per-pass hook events of all scenarios are validated by TLC (LimitsTrace.tla). "
